@@ -62,49 +62,141 @@ fn base_plans(tier: Tier) -> Vec<Plan> {
     v.push(plain(Cfg::Mem, Order::Desc, alphabet(u22(), &W1, 1, true)));
     v.push(plain(Cfg::Mem, Order::Native, alphabet(u4(), &W1, 1, true)));
     v.push(plain(Cfg::Phys, Order::Asc, alphabet(u22(), &W1, 2, true)));
-    v.push(plain(Cfg::alt(Cfg::Mem, "/Z"), Order::Asc, alphabet(u22(), &W1, 2, true)));
-    v.push(plain(Cfg::alt(Cfg::Phys, "/Z/Y"), Order::Asc, alphabet(u4(), &W1, 1, true)));
+    v.push(plain(
+        Cfg::alt(Cfg::Mem, "/Z"),
+        Order::Asc,
+        alphabet(u22(), &W1, 2, true),
+    ));
+    v.push(plain(
+        Cfg::alt(Cfg::Phys, "/Z/Y"),
+        Order::Asc,
+        alphabet(u4(), &W1, 1, true),
+    ));
     v.push(plain(mem2(), Order::Asc, a4.clone()));
     v.push(plain(Cfg::Ov(vec![Cfg::Mem]), Order::Asc, a4.clone()));
     v.push(plain(phys2(), Order::Asc, alphabet(u3(), &W1, 1, true)));
     // a chain three components deep: lookups below a *file* (ENOTDIR on a physical backend)
     let chain = Universe::new("U_chain3{a,a/a,a/a/a}", &["/a", "/a/a", "/a/a/a"]);
-    v.push(plain(Cfg::Phys, Order::Asc, alphabet(chain.clone(), &W1, 1, true)));
-    v.push(plain(Cfg::alt(Cfg::Phys, "/Z"), Order::Asc, alphabet(chain.clone(), &W1, 1, true)));
-    v.push(plain(Cfg::Mem, Order::Asc, alphabet(chain.clone(), &W1, 1, true)));
+    v.push(plain(
+        Cfg::Phys,
+        Order::Asc,
+        alphabet(chain.clone(), &W1, 1, true),
+    ));
+    v.push(plain(
+        Cfg::alt(Cfg::Phys, "/Z"),
+        Order::Asc,
+        alphabet(chain.clone(), &W1, 1, true),
+    ));
+    v.push(plain(
+        Cfg::Mem,
+        Order::Asc,
+        alphabet(chain.clone(), &W1, 1, true),
+    ));
     // adapters stacked on adapters (the larger stackings are in the thorough tier)
-    v.push(plain(Cfg::alt(mem2(), "/Z"), Order::Asc, alphabet(u3(), &W1, 1, true)));
-    v.push(plain(Cfg::Ov(vec![Cfg::alt(Cfg::Mem, "/Z"), Cfg::Mem]), Order::Desc, alphabet(u3(), &W1, 1, true)));
+    v.push(plain(
+        Cfg::alt(mem2(), "/Z"),
+        Order::Asc,
+        alphabet(u3(), &W1, 1, true),
+    ));
+    v.push(plain(
+        Cfg::Ov(vec![Cfg::alt(Cfg::Mem, "/Z"), Cfg::Mem]),
+        Order::Desc,
+        alphabet(u3(), &W1, 1, true),
+    ));
     v.push(plain(Cfg::Mem, Order::Asc, names_prim.clone()));
     v.push(plain(Cfg::Phys, Order::Asc, names_prim.clone()));
-    v.push(plain(mem2(), Order::Desc, alphabet(u_names_small(), &W1, 1, false)));
+    v.push(plain(
+        mem2(),
+        Order::Desc,
+        alphabet(u_names_small(), &W1, 1, false),
+    ));
     // an altroot directory whose name is a prefix of the names below it (P = /a over a, ab, a.b)
-    v.push(plain(Cfg::alt(Cfg::Mem, "/a"), Order::Asc, names_prim.clone()));
+    v.push(plain(
+        Cfg::alt(Cfg::Mem, "/a"),
+        Order::Asc,
+        names_prim.clone(),
+    ));
     // composites over multi-byte components that are not the last one (byte offsets vs char counts)
     let mb = Universe::new("U_mb{é,é/a,éa,éa/é}", &["/é", "/é/a", "/éa", "/éa/é"]);
-    v.push(plain(Cfg::Mem, Order::Asc, alphabet(mb.clone(), &W1, 1, true)));
-    v.push(plain(Cfg::Phys, Order::Asc, alphabet(mb.clone(), &W1, 1, true)));
+    v.push(plain(
+        Cfg::Mem,
+        Order::Asc,
+        alphabet(mb.clone(), &W1, 1, true),
+    ));
+    v.push(plain(
+        Cfg::Phys,
+        Order::Asc,
+        alphabet(mb.clone(), &W1, 1, true),
+    ));
     if tier == Tier::Thorough {
-        v.push(plain(Cfg::alt(Cfg::Mem, ""), Order::Asc, names_prim.clone()));
-        v.push(plain(Cfg::alt(Cfg::Mem, "/é"), Order::Asc, alphabet(mb.clone(), &W1, 1, true)));
-        v.push(plain(mem2(), Order::Asc, alphabet(mb.clone(), &W1, 1, true)));
-        v.push(plain(mem2(), Order::Desc, alphabet(u_names(), &W1, 1, false)));
+        v.push(plain(
+            Cfg::alt(Cfg::Mem, ""),
+            Order::Asc,
+            names_prim.clone(),
+        ));
+        v.push(plain(
+            Cfg::alt(Cfg::Mem, "/é"),
+            Order::Asc,
+            alphabet(mb.clone(), &W1, 1, true),
+        ));
+        v.push(plain(
+            mem2(),
+            Order::Asc,
+            alphabet(mb.clone(), &W1, 1, true),
+        ));
+        v.push(plain(
+            mem2(),
+            Order::Desc,
+            alphabet(u_names(), &W1, 1, false),
+        ));
         let names_full = alphabet(u_names(), &W1, 1, true);
         v.push(plain(Cfg::Mem, Order::Asc, alphabet(u23(), &W1, 1, true)));
         v.push(plain(Cfg::Mem, Order::Asc, alphabet(u32(), &W1, 1, true)));
         v.push(plain(Cfg::Mem, Order::Asc, names_full.clone()));
-        v.push(plain(Cfg::Phys, Order::Asc, alphabet(u22(), &[b"", b"x", b"\xff\x00"], 1, true)));
-        v.push(plain(Cfg::Phys, Order::Desc, alphabet(u4(), &[b"x"], 5, true)));
+        v.push(plain(
+            Cfg::Phys,
+            Order::Asc,
+            alphabet(u22(), &[b"", b"x", b"\xff\x00"], 1, true),
+        ));
+        v.push(plain(
+            Cfg::Phys,
+            Order::Desc,
+            alphabet(u4(), &[b"x"], 5, true),
+        ));
         v.push(plain(Cfg::alt(Cfg::Phys, "/Z"), Order::Desc, a22.clone()));
-        v.push(plain(Cfg::alt(Cfg::alt(Cfg::Mem, "/Z"), "/Y"), Order::Asc, a22.clone()));
+        v.push(plain(
+            Cfg::alt(Cfg::alt(Cfg::Mem, "/Z"), "/Y"),
+            Order::Asc,
+            a22.clone(),
+        ));
         v.push(plain(Cfg::alt(Cfg::Mem, ""), Order::Asc, a22.clone()));
         v.push(plain(Cfg::alt(Cfg::Mem, "/Z/Y/X"), Order::Asc, a22.clone()));
         v.push(plain(Cfg::alt(mem2(), "/Z"), Order::Asc, a4.clone()));
-        v.push(plain(Cfg::Ov(vec![Cfg::alt(Cfg::Mem, "/Z"), Cfg::Mem]), Order::Asc, a4.clone()));
-        v.push(plain(Cfg::Ov(vec![mem2(), Cfg::Mem]), Order::Asc, a4.clone()));
-        v.push(plain(Cfg::Ov(vec![Cfg::Mem, Cfg::Mem, Cfg::Mem]), Order::Asc, a4.clone()));
-        v.push(plain(Cfg::Ov(vec![Cfg::Mem, Cfg::Phys]), Order::Asc, a4.clone()));
-        v.push(plain(Cfg::Ov(vec![Cfg::Phys, Cfg::Mem]), Order::Asc, a4.clone()));
+        v.push(plain(
+            Cfg::Ov(vec![Cfg::alt(Cfg::Mem, "/Z"), Cfg::Mem]),
+            Order::Asc,
+            a4.clone(),
+        ));
+        v.push(plain(
+            Cfg::Ov(vec![mem2(), Cfg::Mem]),
+            Order::Asc,
+            a4.clone(),
+        ));
+        v.push(plain(
+            Cfg::Ov(vec![Cfg::Mem, Cfg::Mem, Cfg::Mem]),
+            Order::Asc,
+            a4.clone(),
+        ));
+        v.push(plain(
+            Cfg::Ov(vec![Cfg::Mem, Cfg::Phys]),
+            Order::Asc,
+            a4.clone(),
+        ));
+        v.push(plain(
+            Cfg::Ov(vec![Cfg::Phys, Cfg::Mem]),
+            Order::Asc,
+            a4.clone(),
+        ));
         v.push(plain(mem2(), Order::Asc, a22.clone()));
         v.push(plain(mem2(), Order::Asc, names_full));
     }
@@ -118,9 +210,27 @@ fn overlay_plans(tier: Tier) -> Vec<Plan> {
     let a3 = alphabet(u3(), &W1, 2, true);
     let u2 = Universe::new("U2{a,a/a}", &["/a", "/a/a"]);
     v.push(populated(mem2(), Order::Asc, a3.clone(), &u3(), false));
-    v.push(populated(mem2(), Order::Desc, alphabet(u3(), &W1, 1, true), &u2, true));
-    v.push(populated(phys2(), Order::Asc, alphabet(u3(), &W1, 1, true), &u2, false));
-    v.push(populated(Cfg::Ov(vec![Cfg::Mem, Cfg::Mem, Cfg::Mem]), Order::Asc, alphabet(u3(), &W1, 1, true), &u2, false));
+    v.push(populated(
+        mem2(),
+        Order::Desc,
+        alphabet(u3(), &W1, 1, true),
+        &u2,
+        true,
+    ));
+    v.push(populated(
+        phys2(),
+        Order::Asc,
+        alphabet(u3(), &W1, 1, true),
+        &u2,
+        false,
+    ));
+    v.push(populated(
+        Cfg::Ov(vec![Cfg::Mem, Cfg::Mem, Cfg::Mem]),
+        Order::Asc,
+        alphabet(u3(), &W1, 1, true),
+        &u2,
+        false,
+    ));
     // a path that is a directory in one layer and a file in another (first layer decides the type,
     // a directory merges the children of all layers in which it is a directory)
     v.push(Plan {
@@ -132,21 +242,89 @@ fn overlay_plans(tier: Tier) -> Vec<Plan> {
     // sibling names that are prefixes of each other (the reserved `*_wo` names stay excluded: with
     // them the marker of `a` collides with the marker directory of `a_wo` by design)
     let pfx = Universe::new("U_pfx{a,ab,a/a,a/ab}", &["/a", "/ab", "/a/a", "/a/ab"]);
-    v.push(populated(mem2(), Order::Asc, alphabet(pfx.clone(), &W1, 1, false), &pfx, false));
+    v.push(populated(
+        mem2(),
+        Order::Asc,
+        alphabet(pfx.clone(), &W1, 1, false),
+        &pfx,
+        false,
+    ));
     // three levels deep: entries below a lower-layer subdirectory of a removed directory
     let chain = Universe::new("U_chain3{a,a/a,a/a/a}", &["/a", "/a/a", "/a/a/a"]);
-    v.push(populated(mem2(), Order::Asc, alphabet(chain.clone(), &W1, 1, true), &chain, false));
+    v.push(populated(
+        mem2(),
+        Order::Asc,
+        alphabet(chain.clone(), &W1, 1, true),
+        &chain,
+        false,
+    ));
+    // ... and with a middle layer that may lack the parent of what the bottom layer holds
+    v.push(populated(
+        Cfg::Ov(vec![Cfg::Mem, Cfg::Mem, Cfg::Mem]),
+        Order::Asc,
+        alphabet(chain.clone(), &W1, 1, false),
+        &chain,
+        false,
+    ));
     if tier == Tier::Thorough {
         v.push(populated(mem2(), Order::Asc, a4.clone(), &u3(), true));
-        v.push(populated(mem2(), Order::Asc, alphabet(u22(), &W1, 2, true), &u4(), false));
+        v.push(populated(
+            mem2(),
+            Order::Asc,
+            alphabet(u22(), &W1, 2, true),
+            &u4(),
+            false,
+        ));
         v.push(populated(phys2(), Order::Asc, a3.clone(), &u3(), false));
-        v.push(populated(Cfg::Ov(vec![Cfg::Mem, Cfg::Mem, Cfg::Mem]), Order::Asc, a3.clone(), &u3(), false));
-        v.push(populated(Cfg::Ov(vec![Cfg::Mem, Cfg::Mem, Cfg::Mem, Cfg::Mem]), Order::Asc, alphabet(u3(), &W1, 1, true), &u2, false));
-        v.push(populated(Cfg::Ov(vec![mem2(), Cfg::Mem]), Order::Asc, a3.clone(), &u3(), false));
-        v.push(populated(Cfg::Ov(vec![Cfg::alt(Cfg::Mem, "/Z"), Cfg::Mem]), Order::Asc, a3.clone(), &u3(), false));
-        v.push(populated(Cfg::alt(mem2(), "/Z"), Order::Asc, a3.clone(), &u3(), false));
-        v.push(populated(Cfg::Ov(vec![Cfg::Mem, Cfg::Phys]), Order::Asc, a3.clone(), &u3(), false));
-        v.push(populated(Cfg::Ov(vec![Cfg::Mem, Cfg::alt(Cfg::Mem, "/Z/Y")]), Order::Asc, a3.clone(), &u3(), false));
+        v.push(populated(
+            Cfg::Ov(vec![Cfg::Mem, Cfg::Mem, Cfg::Mem]),
+            Order::Asc,
+            a3.clone(),
+            &u3(),
+            false,
+        ));
+        v.push(populated(
+            Cfg::Ov(vec![Cfg::Mem, Cfg::Mem, Cfg::Mem, Cfg::Mem]),
+            Order::Asc,
+            alphabet(u3(), &W1, 1, true),
+            &u2,
+            false,
+        ));
+        v.push(populated(
+            Cfg::Ov(vec![mem2(), Cfg::Mem]),
+            Order::Asc,
+            a3.clone(),
+            &u3(),
+            false,
+        ));
+        v.push(populated(
+            Cfg::Ov(vec![Cfg::alt(Cfg::Mem, "/Z"), Cfg::Mem]),
+            Order::Asc,
+            a3.clone(),
+            &u3(),
+            false,
+        ));
+        v.push(populated(
+            Cfg::alt(mem2(), "/Z"),
+            Order::Asc,
+            a3.clone(),
+            &u3(),
+            false,
+        ));
+        v.push(populated(
+            Cfg::Ov(vec![Cfg::Mem, Cfg::Phys]),
+            Order::Asc,
+            a3.clone(),
+            &u3(),
+            false,
+        ));
+        v.push(populated(
+            Cfg::Ov(vec![Cfg::Mem, Cfg::alt(Cfg::Mem, "/Z/Y")]),
+            Order::Asc,
+            a3.clone(),
+            &u3(),
+            false,
+        ));
     }
     v
 }
@@ -164,14 +342,32 @@ fn session_plans(tier: Tier) -> Vec<Plan> {
     // overlays: primitives only in the quick tier (the composites multiply the marker states)
     let mut alp = alphabet(us.clone(), &W1, 1, tier == Tier::Thorough);
     alp.sessions = true;
-    v.push(populated(mem2(), Order::Asc, alp, &Universe::new("U2{a,a/f}", &["/a", "/a/f"]), false));
+    v.push(populated(
+        mem2(),
+        Order::Asc,
+        alp,
+        &Universe::new("U2{a,a/f}", &["/a", "/a/f"]),
+        false,
+    ));
     if tier == Tier::Thorough {
         let mut a3 = alphabet(u3(), &W2, 2, true);
         a3.sessions = true;
         v.push(plain(Cfg::Mem, Order::Desc, a3.clone()));
         v.push(plain(Cfg::alt(Cfg::Phys, "/Z"), Order::Asc, al.clone()));
-        v.push(populated(Cfg::Ov(vec![Cfg::Mem, Cfg::Mem, Cfg::Mem]), Order::Asc, al.clone(), &Universe::new("U2{a,a/f}", &["/a", "/a/f"]), false));
-        v.push(populated(phys2(), Order::Asc, al.clone(), &Universe::new("U2{a,a/f}", &["/a", "/a/f"]), false));
+        v.push(populated(
+            Cfg::Ov(vec![Cfg::Mem, Cfg::Mem, Cfg::Mem]),
+            Order::Asc,
+            al.clone(),
+            &Universe::new("U2{a,a/f}", &["/a", "/a/f"]),
+            false,
+        ));
+        v.push(populated(
+            phys2(),
+            Order::Asc,
+            al.clone(),
+            &Universe::new("U2{a,a/f}", &["/a", "/a/f"]),
+            false,
+        ));
     }
     v
 }
@@ -200,7 +396,13 @@ fn spec_for(id: &str, tier: Tier) -> Spec {
             } else {
                 // pre-populated lower layers are part of C01's quantifier: one such configuration per change
                 let u2 = Universe::new("U2{a,a/a}", &["/a", "/a/a"]);
-                plans.push(populated(mem2(), Order::Asc, alphabet(u3(), &W1, 2, true), &u2, true));
+                plans.push(populated(
+                    mem2(),
+                    Order::Asc,
+                    alphabet(u3(), &W1, 2, true),
+                    &u2,
+                    true,
+                ));
             }
             Spec {
                 domain: Domain::Typed,
@@ -244,7 +446,9 @@ fn spec_for(id: &str, tier: Tier) -> Spec {
             plans.extend(overlay_plans(tier));
             plans.extend(session_plans(tier));
             Spec {
-                domain: Domain::Unrestricted { root_removal: false },
+                domain: Domain::Unrestricted {
+                    root_removal: false,
+                },
                 mon: Monitors {
                     wellformed: true,
                     ..Default::default()
@@ -260,7 +464,9 @@ fn spec_for(id: &str, tier: Tier) -> Spec {
             plans.extend(overlay_plans(tier));
             plans.extend(session_plans(tier));
             Spec {
-                domain: Domain::Unrestricted { root_removal: false },
+                domain: Domain::Unrestricted {
+                    root_removal: false,
+                },
                 mon: Monitors {
                     consistency: true,
                     ..Default::default()
@@ -296,15 +502,39 @@ fn spec_for(id: &str, tier: Tier) -> Spec {
                 plain(Cfg::Mem, Order::Asc, a(u22())),
                 plain(Cfg::Phys, Order::Asc, a(u4())),
                 plain(Cfg::alt(Cfg::Mem, "/Z"), Order::Asc, a(u4())),
-                populated(ov.clone(), Order::Asc, a(u3()), &Universe::new("U2{a,a/a}", &["/a", "/a/a"]), false),
+                populated(
+                    ov.clone(),
+                    Order::Asc,
+                    a(u3()),
+                    &Universe::new("U2{a,a/a}", &["/a", "/a/a"]),
+                    false,
+                ),
             ];
             if thorough {
                 plans.push(plain(Cfg::Mem, Order::Desc, a(u22())));
                 plans.push(plain(Cfg::alt(Cfg::Phys, "/Z"), Order::Asc, a(u4())));
                 plans.push(populated(ov.clone(), Order::Asc, a(u3()), &u3(), false));
-                plans.push(populated(Cfg::alt(ov.clone(), "/Z"), Order::Asc, a(u3()), &Universe::new("U2{a,a/a}", &["/a", "/a/a"]), false));
-                plans.push(populated(Cfg::Ov(vec![Cfg::Mem, Cfg::Mem, Cfg::Mem]), Order::Asc, a(u3()), &Universe::new("U2{a,a/a}", &["/a", "/a/a"]), false));
-                plans.push(populated(Cfg::Ov(vec![Cfg::Phys, Cfg::Phys]), Order::Asc, a(u3()), &Universe::new("U2{a,a/a}", &["/a", "/a/a"]), false));
+                plans.push(populated(
+                    Cfg::alt(ov.clone(), "/Z"),
+                    Order::Asc,
+                    a(u3()),
+                    &Universe::new("U2{a,a/a}", &["/a", "/a/a"]),
+                    false,
+                ));
+                plans.push(populated(
+                    Cfg::Ov(vec![Cfg::Mem, Cfg::Mem, Cfg::Mem]),
+                    Order::Asc,
+                    a(u3()),
+                    &Universe::new("U2{a,a/a}", &["/a", "/a/a"]),
+                    false,
+                ));
+                plans.push(populated(
+                    Cfg::Ov(vec![Cfg::Phys, Cfg::Phys]),
+                    Order::Asc,
+                    a(u3()),
+                    &Universe::new("U2{a,a/a}", &["/a", "/a/a"]),
+                    false,
+                ));
             }
             Spec {
                 domain: Domain::Typed,
@@ -325,14 +555,20 @@ fn spec_for(id: &str, tier: Tier) -> Spec {
             }
         }
         "C08" => Spec {
-            domain: Domain::Unrestricted { root_removal: false },
+            domain: Domain::Unrestricted {
+                root_removal: false,
+            },
             mon: Monitors {
                 lower_immutable: true,
                 ..Default::default()
             },
             plans: {
                 let mut p = overlay_plans(tier);
-                p.extend(session_plans(tier).into_iter().filter(|p| p.cfg.has_overlay()));
+                p.extend(
+                    session_plans(tier)
+                        .into_iter()
+                        .filter(|p| p.cfg.has_overlay()),
+                );
                 p
             },
             observers: true,
@@ -355,24 +591,49 @@ fn to_space(id: &str, spec: &Spec, p: Plan) -> TreeSpace {
             i.model = None;
         }
     }
-    TreeSpace::new(id, p.cfg, p.order, alpha, spec.domain.clone(), inits, spec.mon.clone())
+    TreeSpace::new(
+        id,
+        p.cfg,
+        p.order,
+        alpha,
+        spec.domain.clone(),
+        inits,
+        spec.mon.clone(),
+    )
 }
 
 pub fn run(ctx: &Ctx, id: &str) -> i32 {
     let spec = spec_for(id, ctx.tier);
-    let info = ctx.info(id, if id == "C20" { "fault_enumeration" } else { "model_checking" });
+    let info = ctx.info(
+        id,
+        if id == "C20" {
+            "fault_enumeration"
+        } else {
+            "model_checking"
+        },
+    );
     let mut spaces = vec![];
     let mut spec = spec;
     let plans = std::mem::take(&mut spec.plans);
     for p in plans {
         spaces.push(to_space(id, &spec, p));
     }
-    println!("{}: {} configurations, tier {:?}", id, spaces.len(), ctx.tier);
+    println!(
+        "{}: {} configurations, tier {:?}",
+        id,
+        spaces.len(),
+        ctx.tier
+    );
     let lim = limits(ctx);
     let (mut stats, mut vio) = run_spaces(ctx, spaces, &lim);
     if id == "C12" {
         let (st, v) = c12_extras(ctx);
-        println!("  [{}] evaluations={} violations={}", st.label, st.transitions, v.len());
+        println!(
+            "  [{}] evaluations={} violations={}",
+            st.label,
+            st.transitions,
+            v.len()
+        );
         stats.push(st);
         vio.extend(v);
     }
@@ -420,13 +681,22 @@ pub fn replay(v: &serde_json::Value) -> i32 {
             if e["dir"].as_bool().unwrap_or(false) {
                 es.push((p, Node::Dir));
             } else {
-                let bytes: Vec<u8> = e["file"].as_array().map(|a| a.iter().map(|x| x.as_u64().unwrap_or(0) as u8).collect()).unwrap_or_default();
+                let bytes: Vec<u8> = e["file"]
+                    .as_array()
+                    .map(|a| a.iter().map(|x| x.as_u64().unwrap_or(0) as u8).collect())
+                    .unwrap_or_default();
                 es.push((p, Node::File(bytes)));
             }
         }
         init.push((b, es));
     }
-    let hist: Vec<Op> = v["history"].as_array().cloned().unwrap_or_default().iter().filter_map(Op::from_json).collect();
+    let hist: Vec<Op> = v["history"]
+        .as_array()
+        .cloned()
+        .unwrap_or_default()
+        .iter()
+        .filter_map(Op::from_json)
+        .collect();
     let call = Op::from_json(&v["call"]);
     let run_once = || {
         let b = build(&cfg, order, &init);
@@ -439,7 +709,12 @@ pub fn replay(v: &serde_json::Value) -> i32 {
             let o = crate::tree::apply_sess(&b, op);
             lines.push(format!("CALL {} -> {}", op.show(), o.short()));
         }
-        let probes: Vec<String> = u22().paths.iter().chain(u_names().paths.iter()).cloned().collect();
+        let probes: Vec<String> = u22()
+            .paths
+            .iter()
+            .chain(u_names().paths.iter())
+            .cloned()
+            .collect();
         let s = snapshot(&b.root, &probes);
         lines.extend(s.dump());
         for base in &b.bases {
@@ -458,7 +733,10 @@ pub fn replay(v: &serde_json::Value) -> i32 {
         eprintln!("MACHINERY: nondeterministic replay");
         return 2;
     }
-    println!("(replayed twice, identical observations) recorded summary: {}", v["summary"].as_str().unwrap_or(""));
+    println!(
+        "(replayed twice, identical observations) recorded summary: {}",
+        v["summary"].as_str().unwrap_or("")
+    );
     0
 }
 
@@ -480,10 +758,14 @@ fn c12_extras(ctx: &Ctx) -> (Stats, Vec<Violation>) {
     if thorough {
         cfgs.push((Cfg::alt(Cfg::Phys, "/Z/Y"), 0, |f| f != TimeField::Created));
         cfgs.push((Cfg::alt(mem2(), "/Z"), 1, |_| true));
-        cfgs.push((Cfg::Ov(vec![Cfg::Phys, Cfg::Phys]), 1, |f| f != TimeField::Created));
+        cfgs.push((Cfg::Ov(vec![Cfg::Phys, Cfg::Phys]), 1, |f| {
+            f != TimeField::Created
+        }));
     }
     let t = std::time::SystemTime::UNIX_EPOCH + std::time::Duration::from_secs(86_400);
-    let work: Vec<(usize, usize)> = (0..cfgs.len()).flat_map(|c| (0..trees.len()).map(move |t| (c, t))).collect();
+    let work: Vec<(usize, usize)> = (0..cfgs.len())
+        .flat_map(|c| (0..trees.len()).map(move |t| (c, t)))
+        .collect();
     let res: Vec<(u64, Vec<Violation>)> = work
         .par_iter()
         .map(|(ci, ti)| {
@@ -594,6 +876,8 @@ fn c12_extras(ctx: &Ctx) -> (Stats, Vec<Violation>) {
         vio.extend(v);
     }
     st.nontrivial = st.states;
-    st.samples = vec![vec!["walk_dir(root) on {/a/, /a/a/, /a/b, /b} with remove_dir_all(/a) after 2 items".into()]];
+    st.samples = vec![vec![
+        "walk_dir(root) on {/a/, /a/a/, /a/b, /b} with remove_dir_all(/a) after 2 items".into(),
+    ]];
     (st, crate::handle::dedupe(vio))
 }
